@@ -205,19 +205,19 @@ def services(plan_holder):
             if plan_holder.get('tags') == 'fail':
                 plan_holder['tags'] = 'ok'
                 raise ConnectionError('injected: tag service down')
-            return iter(list(TAGS[ontology_type.value]))
+            return iter(list(TAGS[ontology_type.name]))
 
     class Rem(RemoteOntologyService):
         def __init__(self):
             self.calls = []
 
         def fetch_ontology(self, ontology_type, release):
-            Instr.boundary('fetch', f'{ontology_type.value} {release}')
-            self.calls.append([ontology_type.value, release])
+            Instr.boundary('fetch', f'{ontology_type.name} {release}')
+            self.calls.append([ontology_type.name, release])
             if plan_holder.get('fetch') == 'fail':
                 plan_holder['fetch'] = 'ok'
                 raise ConnectionError('injected: fetch failed')
-            key = (ontology_type.value, release)
+            key = (ontology_type.name, release)
             if key not in REMOTE:
                 raise ValueError(f'unknown release {release}')
             return Resp(REMOTE[key])
@@ -710,6 +710,8 @@ def github_layer(ctx, rng, thorough):
                     got_tags = list(GitHubOntologyReleaseService().fetch_tags(ot))
                 except ValueError:
                     got_tags = 'ValueError'
+                except Exception as e:  # noqa
+                    got_tags = f'raises {type(e).__name__}: {e}'
                 if names and got_tags != want_tags:
                     problem = {'clause': 'production tags', 'impl': got_tags, 'model': want_tags}
                 elif not names and got_tags not in ('ValueError', []):
